@@ -7,7 +7,7 @@ ID, K = sys.argv[1], sys.argv[2]
 checks = sys.argv[3:] or [ID]
 # round 1 seeds live in /tmp/seedout/<ID>/ (K = 1,2), round 2 in /tmp/seed2/<ID>/ and are stored as K+2;
 # a seed already stored under /verif/seeded/<ID>-<K>/ is re-validated from there.
-SRCROOT = os.environ.get('SEEDSRC', '/tmp/seedout')
+SRCROOT = os.environ.get("SEEDSRC", "/tmp/seedout") if os.environ.get("SKIP_VALIDATE") != "1" else "/nonexistent"  # the sweep always uses the stored patch
 KOUT = str(int(K) + int(os.environ.get('KOFFSET', '0')))
 src = f'{SRCROOT}/{ID}'
 if not os.path.exists(f'{src}/patch{K}.diff'):
